@@ -15,6 +15,8 @@ import DispensoVerif.Model.ConVec
 import DispensoVerif.Model.Arena
 import DispensoVerif.Model.ParFor
 import DispensoVerif.Model.ForEach
+import DispensoVerif.Model.PoolAlloc
+import DispensoVerif.Model.CpuSet
 
 /-! Handlers of the dvdriver line protocol. Core Lean only. -/
 namespace Driver
@@ -33,6 +35,7 @@ inductive Sess where
   | rwlock (s : Conc.State RWLock.proto)
   | threadid (s : Conc.State ThreadId.proto)
   | arena (B : Nat) (s : Conc.State (Arena.proto B))
+  | palloc (s : Conc.State PoolAlloc.proto)
   | distrw (N : Nat) (s : Conc.State (DistRWLock.proto N))
 
 structure St where
@@ -42,6 +45,8 @@ structure St where
   oncefn : OnceFn.St := OnceFn.St.init
   convec : ConVec.St := ConVec.St.init
   arena : Arena.Seq.St := Arena.Seq.St.init
+  palloc : PoolAlloc.Seq.St := PoolAlloc.Seq.St.init 1
+  cpuset : CpuSet.Set := []
 
 def St.init : St := {}
 
@@ -303,6 +308,69 @@ def foreachH (args : List String) : String :=
     s!"T {cs.length}" ++ (cs.foldl (fun acc x => acc ++ " " ++ toString x.1 ++ " " ++ toString x.2) "")
   | _ => "bad-op"
 
+/-- C42 PoolAllocator (sequential layer): `pallocseq reset k` | `pallocseq alloc|dealloc s i|clear|destroy`;
+    reply `slab idx allocCalls deallocCalls capacity` -/
+def pallocH (st : St) (args : List String) : St × String :=
+  match args with
+  | ["reset", k] => match k.toNat? with
+    | some kk => ({ st with palloc := PoolAlloc.Seq.St.init kk }, "ok")
+    | none => (st, "bad-op")
+  | opn :: rest =>
+    match nats rest with
+    | none => (st, "bad-op")
+    | some ns =>
+      let op? : Option PoolAlloc.Seq.Op := match opn, ns with
+        | "alloc", [] => some .alloc
+        | "dealloc", [a, b] => some (.dealloc a b)
+        | "clear", [] => some .clear
+        | "destroy", [] => some .destroy
+        | _, _ => none
+      match op? with
+      | none => (st, "bad-op")
+      | some op =>
+        let (s', o) := PoolAlloc.Seq.step st.palloc op
+        ({ st with palloc := s' }, match o with
+          | some r => s!"{r.slab} {r.idx} {r.allocCalls} {r.deallocCalls} {r.capacity}"
+          | none => "reject")
+  | _ => (st, "bad-op")
+
+/-- split a list at every occurrence of `sep` -/
+def splitAt (sep : Int) (l : List Int) : List (List Int) :=
+  let r := l.foldl (fun (acc : List (List Int) × List Int) x =>
+    if x = sep then (acc.1 ++ [acc.2], []) else (acc.1, acc.2 ++ [x])) ([], [])
+  r.1 ++ [r.2]
+
+/-- C43 CpuSet: `cpuset reset|add i|addRange a b|remove i|removeRange a b|contains i` → `count sum [contains]`;
+    `cpuset parse c1 c2 …` (character codes) → `n id…`;
+    `cpuset group max l2… -2 l3…` with -1 between groups → groups separated by -1 -/
+def cpusetH (st : St) (args : List String) : St × String :=
+  match args with
+  | opn :: rest =>
+    match ints rest with
+    | none => (st, "bad-op")
+    | some ns =>
+      let summary (s : CpuSet.Set) : String := s!"{CpuSet.count s} {s.foldl (· + ·) 0}"
+      match opn, ns with
+      | "reset", [] => ({ st with cpuset := [] }, "ok")
+      | "add", [i] => let s := CpuSet.add st.cpuset i; ({ st with cpuset := s }, summary s)
+      | "addRange", [a, b] => let s := CpuSet.addRange st.cpuset a b; ({ st with cpuset := s }, summary s)
+      | "remove", [i] => let s := CpuSet.remove st.cpuset i; ({ st with cpuset := s }, summary s)
+      | "removeRange", [a, b] => let s := CpuSet.removeRange st.cpuset a b; ({ st with cpuset := s }, summary s)
+      | "contains", [i] => (st, summary st.cpuset ++ (if CpuSet.contains st.cpuset i then " 1" else " 0"))
+      | "parse", cs =>
+        let s := CpuSet.parseLinuxCpuList (cs.map fun c => Char.ofNat c.toNat)
+        (st, s!"{s.length}" ++ s.foldl (fun acc x => acc ++ " " ++ toString x) "")
+      | "group", mx :: body =>
+        match splitAt (-2) body with
+        | [l2s, l3s] =>
+          let l2 := (splitAt (-1) l2s).filter (· ≠ [])
+          let l3 := (splitAt (-1) l3s).filter (· ≠ [])
+          let gs := CpuSet.buildGroups l2 l3 mx
+          (st, s!"{gs.length}" ++ gs.foldl (fun acc g => acc ++ " -1" ++ g.foldl (fun a x => a ++ " " ++ toString x) "") "")
+        | _ => (st, "bad-op")
+      | _, _ => (st, "bad-op")
+  | _ => (st, "bad-op")
+
 def parforPlanH (args : List String) : String :=
   match ints args with
   | some [bits, sg, start, stop, chunk, mt, wait, minItems, g, pool, recur] =>
@@ -323,6 +391,7 @@ def traceBegin (args : List String) : Sess × String :=
     | _ => (.failed, "bad-params")
   | "asyncreq" :: _ => (.asyncreq AsyncReq.init, "ok")
   | "rwlock" :: _ => (.rwlock RWLock.init, "ok")
+  | "palloc" :: _ => (.palloc PoolAlloc.init, "ok")
   | "arena" :: rest =>
     match nats rest with
     | some [B] => (.arena B (Arena.init B), "ok")
@@ -369,6 +438,10 @@ def traceLine (sess : Sess) (toks : List String) : Sess × String :=
     match Trace.acceptLine (Arena.binding B) s toks with
     | .ok s' => (.arena B s', "ok")
     | .error e => (.failed, "MISMATCH " ++ e)
+  | .palloc s =>
+    match Trace.acceptLine PoolAlloc.binding s toks with
+    | .ok s' => (.palloc s', "ok")
+    | .error e => (.failed, "MISMATCH " ++ e)
   | .rwlock s =>
     match Trace.acceptLine RWLock.binding s toks with
     | .ok s' => (.rwlock s', "ok")
@@ -400,6 +473,8 @@ def dispatch (st : St) : List String → St × String
   | "arenaseq" :: rest => arenaH st rest
   | "parfor" :: rest => (st, parforH rest)
   | "foreach" :: rest => (st, foreachH rest)
+  | "pallocseq" :: rest => pallocH st rest
+  | "cpuset" :: rest => cpusetH st rest
   | "parforplan" :: rest => (st, parforPlanH rest)
   | "trace" :: "begin" :: rest =>
     let (s, r) := traceBegin rest
